@@ -606,13 +606,12 @@ pub fn direct_c07(ctx: &mut Ctx) {
                             Err(_) => Some(format!("{} (3-D copy) panics in block {}", name, b)),
                             Ok((a3, b3)) => {
                                 let (ga, gb) = (flat_any(&a3), flat_any(&b3));
-                                (0..xs.len()).find_map(|i| {
-                                    let same = |p: f32, q: f32| p.to_bits() == q.to_bits() || (p.is_nan() && q.is_nan());
-                                    if ga.len() != fa.len() || gb.len() != fb.len() || !same(ga[i], fa[i]) || !same(gb[i], fb[i]) {
-                                        Some(format!("{}: the 3-D copy differs from the flat copy at x = {:e} (#{:08x}): forward {:e} vs {:e}, backward {:e} vs {:e}",
-                                            name, xs[i], xs[i].to_bits(), ga.get(i).cloned().unwrap_or(f32::NAN), fa[i], gb.get(i).cloned().unwrap_or(f32::NAN), fb[i]))
-                                    } else { None }
-                                })
+                                if ga.len() != xs.len() || gb.len() != xs.len() {
+                                    return Some(format!("{}: the 3-D copy returns {} / {} values for {} inputs", name, ga.len(), gb.len(), xs.len()));
+                                }
+                                // the 3-D copy is held to the same definition (not to the flat copy's bits: a differently
+                                // rounded but correct copy is not a violation)
+                                (0..xs.len()).find_map(|i| act_elem_check(name, xs[i], ga[i], gb[i]).map(|e| format!("3-D copy: {}", e)))
                             }
                         }
                     }
@@ -623,7 +622,7 @@ pub fn direct_c07(ctx: &mut Ctx) {
         ctx.direct_evals += n;
         ctx.direct_distinct += n;
         ctx.oracle_checks += n;
-        ctx.notes.push(format!("{}: swept {} finite-or-not bit patterns (stride {}) through forward and backward of the flat copy and of the 3-D copy (compared bit for bit); {} blocks with a failure", name, n, stride, bad.len()));
+        ctx.notes.push(format!("{}: swept {} finite-or-not bit patterns (stride {}) through forward and backward of the flat copy and of the 3-D copy (each against the definition); {} blocks with a failure", name, n, stride, bad.len()));
         for b in bad.iter().take(3) {
             ctx.failures.push(Failure { request: String::new(), key: "activation-function".into(), what: b.clone(), input: format!("{} sweep", name), got: b.clone(), expected: "defined function / derivative, finite, in range".into() });
         }
